@@ -1145,7 +1145,10 @@ class Distributions(object):
                     Pi = inv(P[:m, :m])
                     # due to numerical errors, inv() might "succeed" even for
                     # some degenerate matrices, so try to reject them manually
-                    if np.max(Pi) > 1e14:  # (FP precision is only ~15 digits)
+                    # (relative to the matrix itself, so that the test does
+                    #  not depend on the overall scale of the weights;
+                    #  FP precision is only ~15 digits)
+                    if np.max(np.abs(Pi)) * np.max(np.abs(P[:m, :m])) > 1e14:
                         raise np.linalg.LinAlgError
                     C[:m, :m] = Pi  # (this is faster than np.pad)
                     return C
